@@ -93,9 +93,25 @@ class Stack(Sequence[T]):
 
     def drop_snapshot(self) -> None:
         """Drop the last snapshot."""
+        if not self.lengths:
+            return
+
+        item_count, remained_count = self.lengths.pop()
+        # This snapshot's popped items are the last `recorded` entries of `popped`.
+        recorded = item_count - remained_count
+        keep = 0
+
         if self.lengths:
-            item_count, remained_count = self.lengths.pop()
-            del self.popped[item_count - remained_count :]
+            outer_count, outer_remained = self.lengths[-1]
+            if remained_count < outer_remained:
+                # Items popped from below the enclosing snapshot's low-water mark
+                # are needed to restore that snapshot. They are the deepest ones,
+                # so they come last.
+                keep = outer_remained - remained_count
+                self.lengths[-1] = (outer_count, remained_count)
+
+        end = len(self.popped)
+        del self.popped[end - recorded : end - keep]
 
     def restore(self) -> None:
         """Rewind the stack to the most recent snapshot.
